@@ -8,7 +8,7 @@
 From Ais Require Import Model.Base Model.Enums Model.Fields Model.Messages Model.Unarmor Model.Sentence
   Spec.Layouts Proofs.Bits Proofs.Reads Proofs.Layouts Proofs.Dispatch Proofs.MsgLevel Proofs.Interrogation Model.NomBits Proofs.NomBitsProof.
 From Ais Require Import Spec.Grammar Spec.Armor Proofs.EndToEnd Proofs.UnarmorProof.
-From Ais Require Import Proofs.Encode Proofs.RoundTrip.
+From Ais Require Import Proofs.Encode Proofs.RoundTrip Spec.Transmit Proofs.InOrder Proofs.Transmit Proofs.AirRoundTrip.
 From Coq Require Import Lia.
 Local Open Scope N_scope.
 
@@ -494,6 +494,106 @@ Theorem C04_roundtrip_type27 :
      lr_gnss_position_status := (vgnss =? 1) |})).
 Proof. exact roundtrip_type27. Qed.
 Print Assumptions C04_roundtrip_type27.
+
+
+(* from field values over the air to field values: the values are encoded, armoured, cut into 2..255 fragments at any
+   character boundaries, framed with sequence id, fill count and checksums, and fed to a parser in any state; the
+   last result is Complete and its message carries exactly the values (Proofs/Transmit.v + the round trips above;
+   stated here for the three types that need more than one sentence, proved for all fifteen in Proofs/AirRoundTrip.v) *)
+Theorem C04_air_roundtrip_type5 :
+  forall c q st id chan vrepeat vmmsi vversion vimo vcallsign vname vshiptype vbow vstern vport vstarboard vepfd vmonth vday vhour vminute vdraught vdestination vdte xspare parts ds,
+  let bits := enc (fields5 vrepeat vmmsi vversion vimo vcallsign vname vshiptype vbow vstern vport vstarboard vepfd vmonth vday vhour vminute vdraught vdestination vdte xspare) in
+  in_range (fields5 vrepeat vmmsi vversion vimo vcallsign vname vshiptype vbow vstern vport vstarboard vepfd vmonth vday vhour vminute vdraught vdestination vdte xspare) ->
+  concat parts = armored_payload bits ->
+  group_ok c id chan parts (N.of_nat (fill_of bits)) ->
+  (2 <= length parts <= 255)%nat -> length ds = length parts -> last ds false = true ->
+  noalloc c && (MAX_SENTENCE_SIZE_BYTES <? byte_count (length (armored_payload bits)))%nat = false ->
+  exists k, let bs := bits ++ repeat false k in
+    last (snd (run c q st (combine (transmit id chan parts (N.of_nat (fill_of bits))) ds))) (Err ENmea) =
+    Ok (Complete (with_message
+      (with_data (last (group_sentences q (N.of_nat (length parts)) 1 id chan parts (N.of_nat (fill_of bits)))
+                       (sentence_of_fields q (frame_fields 0 0 None 0 [] 0))) (armored_payload bits))
+      (Some (StaticAndVoyageRelatedData
+  (let rem := (length bs - 302)%nat in
+  let dest_chars := (Nat.min 120 rem / 6)%nat in
+  let after := (302 + 6 * dest_chars)%nat in
+  {| sv_message_type := 5; sv_repeat_indicator := vrepeat; sv_mmsi := vmmsi;
+     sv_ais_version := vversion; sv_imo_number := vimo;
+     sv_callsign := text_at bs 70 7; sv_vessel_name := text_at bs 112 20;
+     sv_ship_type := ship_type_parse (vshiptype);
+     sv_dimension_to_bow := vbow; sv_dimension_to_stern := vstern;
+     sv_dimension_to_port := vport; sv_dimension_to_starboard := vstarboard;
+     sv_epfd_type := epfd_type_parse (vepfd);
+     sv_eta_month_utc := opt_nz (vmonth); sv_eta_day_utc := opt_nz (vday);
+     sv_eta_hour_utc := vhour; sv_eta_minute_utc := minsec_conv (vminute);
+     sv_draught := FDiv (FOfInt (Z.of_N (vdraught))) 10;
+     sv_destination := text_at bs 302 dest_chars;
+     sv_dte := if (after <? length bs)%nat then dte_at bs after else DteNotReady |}))))).
+Proof. exact air_roundtrip_type5. Qed.
+Print Assumptions C04_air_roundtrip_type5.
+
+Theorem C04_air_roundtrip_type19 :
+  forall c q st id chan vrepeat vmmsi xreserved vspeed vaccuracy vlon vlat vcourse vheading vsecond xreserved2 vname vshiptype vbow vstern vport vstarboard vepfd vraim vdte vassigned xspare parts ds,
+  let bits := enc (fields19 vrepeat vmmsi xreserved vspeed vaccuracy vlon vlat vcourse vheading vsecond xreserved2 vname vshiptype vbow vstern vport vstarboard vepfd vraim vdte vassigned xspare) in
+  in_range (fields19 vrepeat vmmsi xreserved vspeed vaccuracy vlon vlat vcourse vheading vsecond xreserved2 vname vshiptype vbow vstern vport vstarboard vepfd vraim vdte vassigned xspare) ->
+  concat parts = armored_payload bits ->
+  group_ok c id chan parts (N.of_nat (fill_of bits)) ->
+  (2 <= length parts <= 255)%nat -> length ds = length parts -> last ds false = true ->
+  noalloc c && (MAX_SENTENCE_SIZE_BYTES <? byte_count (length (armored_payload bits)))%nat = false ->
+  exists k, let bs := bits ++ repeat false k in
+    last (snd (run c q st (combine (transmit id chan parts (N.of_nat (fill_of bits))) ds))) (Err ENmea) =
+    Ok (Complete (with_message
+      (with_data (last (group_sentences q (N.of_nat (length parts)) 1 id chan parts (N.of_nat (fill_of bits)))
+                       (sentence_of_fields q (frame_fields 0 0 None 0 [] 0))) (armored_payload bits))
+      (Some (ExtendedClassBPositionReport
+  ({| eb_message_type := 19; eb_repeat_indicator := vrepeat; eb_mmsi := vmmsi;
+     eb_speed_over_ground := parse_speed_over_ground (vspeed);
+     eb_position_accuracy := (if vaccuracy =? 1 then Dgps else Unaugmented);
+     eb_longitude := parse_longitude (sext 28 (vlon));
+     eb_latitude := parse_latitude (sext 27 (vlat));
+     eb_course_over_ground := parse_cog (vcourse);
+     eb_true_heading := parse_heading (vheading);
+     eb_timestamp := vsecond;
+     eb_name := text_at bs 143 20;
+     eb_type_of_ship_and_cargo := ship_type_parse (vshiptype);
+     eb_dimension_to_bow := vbow; eb_dimension_to_stern := vstern;
+     eb_dimension_to_port := vport; eb_dimension_to_starboard := vstarboard;
+     eb_epfd_type := epfd_type_parse (vepfd);
+     eb_raim := (vraim =? 1);
+     eb_dte := (if vdte =? 1 then DteNotReady else DteReady);
+     eb_assigned_mode := (if vassigned =? 1 then Assigned else Autonomous) |}))))).
+Proof. exact air_roundtrip_type19. Qed.
+Print Assumptions C04_air_roundtrip_type19.
+
+Theorem C04_air_roundtrip_type21 :
+  forall c q st id chan vrepeat vmmsi vaidtype vname vaccuracy vlon vlat vbow vstern vport vstarboard vepfd vsecond voffposition vregional vraim vvirtual vassigned xspare parts ds,
+  let bits := enc (fields21 vrepeat vmmsi vaidtype vname vaccuracy vlon vlat vbow vstern vport vstarboard vepfd vsecond voffposition vregional vraim vvirtual vassigned xspare) in
+  in_range (fields21 vrepeat vmmsi vaidtype vname vaccuracy vlon vlat vbow vstern vport vstarboard vepfd vsecond voffposition vregional vraim vvirtual vassigned xspare) ->
+  concat parts = armored_payload bits ->
+  group_ok c id chan parts (N.of_nat (fill_of bits)) ->
+  (2 <= length parts <= 255)%nat -> length ds = length parts -> last ds false = true ->
+  noalloc c && (MAX_SENTENCE_SIZE_BYTES <? byte_count (length (armored_payload bits)))%nat = false ->
+  exists k, let bs := bits ++ repeat false k in
+    last (snd (run c q st (combine (transmit id chan parts (N.of_nat (fill_of bits))) ds))) (Err ENmea) =
+    Ok (Complete (with_message
+      (with_data (last (group_sentences q (N.of_nat (length parts)) 1 id chan parts (N.of_nat (fill_of bits)))
+                       (sentence_of_fields q (frame_fields 0 0 None 0 [] 0))) (armored_payload bits))
+      (Some (AidToNavigationReport
+  ({| an_message_type := 21; an_repeat_indicator := vrepeat; an_mmsi := vmmsi;
+     an_aid_type := navaid_type_parse (vaidtype);
+     an_name := text_at bs 43 20;
+     an_accuracy := (if vaccuracy =? 1 then Dgps else Unaugmented);
+     an_longitude := parse_longitude (sext 28 (vlon));
+     an_latitude := parse_latitude (sext 27 (vlat));
+     an_dimension_to_bow := vbow; an_dimension_to_stern := vstern;
+     an_dimension_to_port := vport; an_dimension_to_starboard := vstarboard;
+     an_epfd_type := epfd_type_parse (vepfd);
+     an_utc_second := vsecond;
+     an_off_position := (voffposition =? 1);
+     an_regional_reserved := vregional;
+     an_raim := (vraim =? 1); an_virtual_aid := (vvirtual =? 1); an_assigned_mode := (vassigned =? 1) |}))))).
+Proof. exact air_roundtrip_type21. Qed.
+Print Assumptions C04_air_roundtrip_type21.
 (* END generated round trips *)
 
 (* non-vacuity of the round trips: a concrete assignment is in range, and the encoded payload is the
